@@ -108,7 +108,10 @@ def render_cell_lines(k: int, cell: Cell, rd: Rendering) -> T.Tuple[T.List[str],
 class Project:
     """One real project holding many cells."""
 
-    def __init__(self, root: Path, wm: str, cells: T.List[Cell], wrapped: T.Set[int], rd: Rendering):
+    def __init__(self, root: Path, wm: str, cells: T.List[Cell], wrapped: T.Set[int], rd: Rendering,
+                 emit_order: T.Optional[T.List[int]] = None, reconfigure: bool = False):
+        self.emit_order = emit_order if emit_order is not None else list(range(len(cells)))
+        self.reconfigure = reconfigure   # second configuration of the build directory that is already there
         self.root = root
         self.src = root / 'src'
         self.wm = wm
@@ -132,14 +135,17 @@ class Project:
         wrapper.write_text('#!/bin/sh\necho "$*" >> "$C10_PKGLOG"\nexec ' + REAL_PKGCONFIG + ' "$@"\n')
         wrapper.chmod(0o755)
         main = ["project('c10main')"]
-        for k, cell in enumerate(self.cells):
+        for k in self.emit_order:
+            cell = self.cells[k]
             cfg = cell['cfg']
             sub = subproject_name(k, cfg)
-            if cfg['sys']:
+            if not cfg['sys']:
+                (pc / f'd{k}.pc').unlink(missing_ok=True)      # re-configuration: no longer installed
+            else:
                 (pc / f'd{k}.pc').write_text(f'Name: d{k}\nDescription: C10 system dependency\nVersion: {rd.version(cfg["sys"])}\n')
             if cfg['prov'] != 'none':
                 sd = sp / sub
-                sd.mkdir()
+                sd.mkdir(exist_ok=True)
                 sl = [f"project({_q(sub)}, version: '0.1')", f"message('C10SUB {k} begin')"]
                 if cfg['style'] == 'broken':
                     sl.append("error('C10 deliberately broken subproject')")
@@ -159,7 +165,7 @@ class Project:
             lines, steps = render_cell_lines(k, cell, rd)
             if k in self.wrapped:
                 wd = sp / f'c{k}'
-                wd.mkdir()
+                wd.mkdir(exist_ok=True)
                 body = [f"project('c{k}')"] + lines
                 for idx, step in steps.items():
                     self.linemap[(f'subprojects/c{k}/meson.build', idx + 2)] = (k, step)
@@ -180,10 +186,14 @@ class Project:
         env = {k: v for k, v in os.environ.items() if not k.startswith(('PKG_CONFIG', 'MESON', 'CMAKE', 'NINJA'))}
         env.update({'PATH': str(self.root / 'bin'), 'PKG_CONFIG_LIBDIR': str(self.root / 'pc'), 'C10_PKGLOG': str(log),
                     'LC_ALL': 'C.UTF-8', 'PYTHONDONTWRITEBYTECODE': '1'})
-        cmd = [common.PYTHON, str(common.REPO / 'meson.py'), 'setup', '--backend=none', f'--wrap-mode={self.wm}']
-        if self.fff:
-            cmd.append('--force-fallback-for=' + ','.join(self.fff))
-        cmd += ['src', 'build']
+        if self.reconfigure:
+            cmd = [common.PYTHON, str(common.REPO / 'meson.py'), 'setup', '--reconfigure', f'-Dwrap_mode={self.wm}',
+                   '-Dforce_fallback_for=' + ','.join(self.fff), 'src', 'build']
+        else:
+            cmd = [common.PYTHON, str(common.REPO / 'meson.py'), 'setup', '--backend=none', f'--wrap-mode={self.wm}']
+            if self.fff:
+                cmd.append('--force-fallback-for=' + ','.join(self.fff))
+            cmd += ['src', 'build']
         try:
             p = subprocess.run(cmd, cwd=self.root, env=env, stdout=subprocess.PIPE, stderr=subprocess.STDOUT,
                                timeout=timeout, text=True, errors='replace')
@@ -326,6 +336,77 @@ def worker(args: T.Tuple[str, str, T.List[Cell], int]) -> T.Tuple[T.Dict[str, T.
     rd.rnd = random.Random(f'c10-render-{seed}-{label}')
     with common.scratch('c10dl-') as d:
         return run_cells(d, wm, cells, rd)
+
+
+def second_view(c: Cell) -> Cell:
+    """The cell as the re-configuration sees it."""
+    r2 = c['r2'][0]
+    cfg = dict(c['cfg'])
+    cfg.update({'sys': r2['sys'], 'wm': r2['wm'], 'fff': r2['fff']})
+    return {'id': c['id'], 'cfg': cfg, 'as': r2['as'], 'abort': c.get('abort2', 0), 'meth': 'auto'}
+
+
+def run_cells2(root: Path, wm1: str, wm2: str, cells: T.List[Cell], rd: Rendering, timeout: int = 900,
+               max_restarts: int = 6) -> T.Tuple[T.Dict[str, T.Dict[str, T.Any]], T.Dict[str, T.Any]]:
+    """Histories over one build directory: `meson setup` (no cell is predicted to abort: all are statements of the
+    main build file), then the build file, the .pc files and the options are changed and the same directory is
+    configured again with `meson setup --reconfigure`.  -> {id: {'obs', 'asked', 'obs2', 'asked2'}}."""
+    done: T.Dict[str, T.Dict[str, T.Any]] = {}
+    stats = {'setups': 0, 'unexpected_aborts': 0, 'exit_status_observed': 0, 'unobserved': 0, 'log_tail': ''}
+    pending = list(cells)
+    attempt = 0
+    while pending:
+        attempt += 1
+        if attempt > max_restarts:
+            stats['unobserved'] += len(pending)
+            break
+        pdir = root / f'q{attempt}'
+        order = list(pending)
+        p1 = Project(pdir, wm1, order, set(), rd)
+        p1.materialise()
+        rc, out, pkglog = p1.run(timeout)
+        stats['setups'] += 1
+        res1, aborted = parse_run(p1, rc, out, pkglog)
+        if rc != 0:
+            # a first configuration that fails leaves no build directory to configure again
+            if aborted is None or aborted not in res1:
+                raise MachineryError('C10: first configuration of a two-step project failed:\n' + out[-2000:])
+            stats['unexpected_aborts'] += 1
+            done[order[aborted]['id']] = {'obs': res1[aborted]['obs'], 'asked': res1[aborted]['asked'], 'r2obs': None}
+            pending = [c for c in order if c['id'] not in done]
+            continue
+        if len(res1) != len(order):
+            raise MachineryError('C10: first configuration of a two-step project succeeded with unobserved cells')
+        views = [second_view(c) for c in order]
+        aborting = [k for k, v in enumerate(views) if v['abort']]
+        tail = aborting[-1] if aborting else None
+        wrapped = {k for k in aborting if k != tail}
+        emit = [k for k in range(len(order)) if k != tail] + ([tail] if tail is not None else [])
+        p2 = Project(pdir, wm2, views, wrapped, rd, emit_order=emit, reconfigure=True)
+        p2.materialise()
+        rc, out, pkglog = p2.run(timeout)
+        stats['setups'] += 1
+        stats['log_tail'] = out[-1200:]
+        res2, aborted2 = parse_run(p2, rc, out, pkglog)
+        for k, r in res2.items():
+            done[order[k]['id']] = {'obs': res1[k]['obs'], 'asked': res1[k]['asked'],
+                                    'r2obs': {'obs': r['obs'], 'asked': r['asked']}, 'main': k not in wrapped}
+        if aborted2 is not None and aborted2 == tail:
+            stats['exit_status_observed'] += 1
+        pending = [c for c in order if c['id'] not in done]
+        if pending:
+            if aborted2 is None or order[aborted2]['id'] not in done:
+                raise MachineryError('C10: cells left unobserved in a re-configuration without an aborting cell:\n' + out[-2000:])
+            stats['unexpected_aborts'] += 1
+    return done, stats
+
+
+def worker2(args: T.Tuple[str, str, str, T.List[Cell], int]) -> T.Tuple[T.Dict[str, T.Dict[str, T.Any]], T.Dict[str, T.Any]]:
+    label, wm1, wm2, cells, seed = args
+    rd = Rendering(seed)
+    rd.rnd = random.Random(f'c10-render-{seed}-{label}')
+    with common.scratch('c10d2-') as d:
+        return run_cells2(d, wm1, wm2, cells, rd)
 
 
 def cell_key(cfg: T.Dict[str, T.Any], as_: T.List[T.Dict[str, T.Any]]) -> str:
